@@ -25,11 +25,14 @@ type caseT struct {
 	NoRoute bool `json:"noroute"`
 	Tracing bool `json:"tracing"`
 	// FailW: every body write reports an error (broken pipe) after the bytes were taken
-	FailW  bool      `json:"failw,omitempty"`
-	Health bool      `json:"health,omitempty"` // app with app.WithHealthEndpoints()
-	Script []cx.Op   `json:"script"`
-	Beh    []cx.Beh  `json:"beh"`
-	Target cx.Target `json:"target"`
+	FailW  bool `json:"failw,omitempty"`
+	Health bool `json:"health,omitempty"` // app with app.WithHealthEndpoints()
+	// Timeout > 0 (router world, no mounts): a timeout middleware with this real budget in ms (silent timeout
+	// handler) is the first global middleware; the behaviours are free of writes, act T overruns the budget
+	Timeout int       `json:"timeout,omitempty"`
+	Script  []cx.Op   `json:"script"`
+	Beh     []cx.Beh  `json:"beh"`
+	Target  cx.Target `json:"target"`
 }
 
 // ---------------------------------------------------------------- generator
@@ -527,6 +530,23 @@ func genActs(r *hx.Rand, depth int) []cx.Act {
 	return out
 }
 
+// timeoutActs: the behaviour without writes, with "overrun the budget" in place of "cancel the request context"
+func timeoutActs(acts []cx.Act) []cx.Act {
+	out := []cx.Act{}
+	for _, x := range acts {
+		switch x.K {
+		case "W", "F":
+		case "C":
+			out = append(out, cx.Act{K: "T"})
+		case "K":
+			out = append(out, cx.Act{K: "K", Body: timeoutActs(x.Body)})
+		default:
+			out = append(out, x)
+		}
+	}
+	return out
+}
+
 func a(ks ...string) []cx.Act {
 	out := make([]cx.Act, len(ks))
 	for i, k := range ks {
@@ -618,8 +638,25 @@ func genScript(r *hx.Rand, st *hx.Stats) (caseT, []cx.Target) {
 		}
 	}
 	c := caseT{Check: !r.Chance(1, 4), Compiled: r.Chance(1, 3), NoRoute: r.Chance(1, 4), Tracing: g.app && r.Chance(1, 3), FailW: r.Chance(1, 5), Health: g.app && r.Chance(1, 4), Script: g.script}
+	if !g.app && g.nRouters == 1 && r.Chance(1, 120) {
+		c.Timeout = 120
+	}
 	for h := 1; h <= g.nextH; h++ {
 		c.Beh = append(c.Beh, cx.Beh{H: h, Acts: genBeh(r, st)})
+	}
+	if c.Timeout > 0 {
+		// nothing writes (after the deadline the guard of the timeout middleware would drop it); a cancel is an overrun
+		// of the budget; one more handler overruns right away
+		for i := range c.Beh {
+			c.Beh[i].Acts = timeoutActs(c.Beh[i].Acts)
+		}
+		for i := range c.Beh { // mostly flat handlers: positions remain behind the point where the chain stops
+			if r.Chance(2, 3) {
+				c.Beh[i].Acts = nil
+			}
+		}
+		i := r.Intn(len(c.Beh))
+		c.Beh[i].Acts = append([]cx.Act{{K: "T"}}, c.Beh[i].Acts...)
 	}
 	var ts []cx.Target
 	for _, e := range g.routes[0] {
@@ -641,7 +678,7 @@ func genScript(r *hx.Rand, st *hx.Stats) (caseT, []cx.Target) {
 func nontrivialActs(acts []cx.Act) bool {
 	for i, x := range acts {
 		switch x.K {
-		case "A", "C", "P", "F":
+		case "A", "C", "P", "F", "T":
 			return true
 		case "N":
 			if i != len(acts)-1 {
@@ -667,6 +704,12 @@ func emit(id string, c caseT, w *cx.World, st *hx.Stats) string {
 		w.Miss()
 	}
 	res := w.Serve(c.Target, &cx.ReqState{Beh: cx.BehMap(c.Beh)})
+	if res.Discard != "" {
+		if st != nil {
+			st.Count("discarded_timing")
+		}
+		return fmt.Sprintf("# %s discarded: %s%s", id, res.Discard, hx.Comment(c))
+	}
 	chain, found := w.Probe(c.Target)
 	if found {
 		l.Nat(1)
@@ -703,6 +746,9 @@ func emit(id string, c caseT, w *cx.World, st *hx.Stats) string {
 		if c.Tracing {
 			st.Count("app_tracing_on")
 		}
+		if c.Timeout > 0 {
+			st.Count("timeout_middleware_in_front_real_budget")
+		}
 		if c.Compiled {
 			st.Count("route_compilation_on")
 		}
@@ -724,7 +770,7 @@ func countEnters(tr []string) int {
 }
 
 func runScript(idp string, c caseT, ts []cx.Target, w *hx.Rand, st *hx.Stats, out func(string)) {
-	world, err := cx.Build(c.Script, cx.BuildOpts{Check: c.Check, Compiled: c.Compiled, NoRoute: c.NoRoute, Tracing: c.Tracing, Health: c.Health})
+	world, err := cx.Build(c.Script, cx.BuildOpts{Check: c.Check, Compiled: c.Compiled, NoRoute: c.NoRoute, Tracing: c.Tracing, Health: c.Health, TimeoutMs: c.Timeout})
 	if world != nil {
 		world.FailWrites = c.FailW
 	}
@@ -813,6 +859,16 @@ func fixed() []struct {
 			{K: "AR", OK: "ag", A: 0, Seg: 1, H: 4}, {K: "AR", OK: "a", Seg: cx.SpecialSeg + 6, H: 5}},
 			Beh: beh(5, map[int][]cx.Act{1: a("A")})},
 			[]cx.Target{{Route: 1, Path: []int{cx.SpecialSeg}, Ver: -1}, {Route: 3, Path: []int{cx.SpecialSeg + 2, 1}, Ver: -1}, {Route: 4, Path: []int{cx.SpecialSeg + 6}, Ver: -1}}},
+		// a timeout middleware (real 120 ms budget, silent timeout handler) in front: the second of several flat route handlers
+		// overruns the budget — nothing behind it may start, neither in the goroutine of the middleware nor after it
+		{caseT{Check: true, Timeout: 120, Script: []cx.Op{
+			{K: "R", OK: "r", A: 0, Seg: 1, Hs: []int{1, 2, 3, 4, 5}}},
+			Beh: beh(5, map[int][]cx.Act{1: a(), 2: a("T"), 3: a(), 4: a(), 5: a()})},
+			[]cx.Target{{Route: 0, Path: []int{1}, Ver: -1}}},
+		{caseT{Check: true, Timeout: 120, Script: []cx.Op{
+			{K: "U", A: 0, Hs: []int{1}}, {K: "R", OK: "r", A: 0, Seg: 1, Hs: []int{2, 3, 4, 5, 6, 7}}},
+			Beh: beh(7, map[int][]cx.Act{2: a(), 3: a("T"), 4: a(), 5: a(), 6: a(), 7: a()})},
+			[]cx.Target{{Route: 1, Path: []int{1}, Ver: -1}}},
 		// a sub-router whose routes come from a route group (handlers passed as plain func values) is mounted
 		{caseT{Check: true, Script: []cx.Op{
 			{K: "NR"}, {K: "G", A: 1, Seg: 1, Hs: []int{1}}, {K: "GU", A: 0, Hs: []int{2, 3}},
@@ -872,7 +928,7 @@ func main() {
 				out(fmt.Sprintf("# cannot replay %q: %v", id, err))
 				continue
 			}
-			world, err := cx.Build(c.Script, cx.BuildOpts{Check: c.Check, Compiled: c.Compiled, NoRoute: c.NoRoute, Tracing: c.Tracing, Health: c.Health})
+			world, err := cx.Build(c.Script, cx.BuildOpts{Check: c.Check, Compiled: c.Compiled, NoRoute: c.NoRoute, Tracing: c.Tracing, Health: c.Health, TimeoutMs: c.Timeout})
 			if world != nil {
 				world.FailWrites = c.FailW
 			}
